@@ -1,7 +1,5 @@
 package model
 
-import "math"
-
 // Breaker states.
 const (
 	Closed = iota
@@ -169,10 +167,9 @@ func (b *Breaker) Complete(now, rt uint64, failed bool) {
 	case ErrCount:
 		trip = float64(nbad) >= b.R.Threshold
 	default:
+		// bad/total is a correctly rounded quotient of two integers: it equals a threshold written as the
+		// decimal fraction of the same value exactly, so "reaches" needs no tolerance
 		ratio := float64(nbad) / float64(total)
-		if math.Abs(ratio-b.R.Threshold) < 1e-7 && ratio != b.R.Threshold {
-			b.Band = true
-		}
 		trip = ratio >= b.R.Threshold
 	}
 	if trip {
